@@ -1,6 +1,7 @@
 package exec
 
 import (
+	"math/bits"
 	"fmt"
 	"go/token"
 	"go/types"
@@ -89,6 +90,15 @@ var nativeReg = map[string]any{
 	"path.Ext":               path.Ext,
 	"path.Join":              path.Join,
 	"path.Clean":             path.Clean,
+	"math/bits.Len":            bits.Len,
+	"math/bits.Len64":          bits.Len64,
+	"math/bits.Len32":          bits.Len32,
+	"math/bits.TrailingZeros":  bits.TrailingZeros,
+	"math/bits.TrailingZeros64": bits.TrailingZeros64,
+	"math/bits.LeadingZeros":   bits.LeadingZeros,
+	"math/bits.LeadingZeros64": bits.LeadingZeros64,
+	"math/bits.OnesCount":      bits.OnesCount,
+	"math/bits.OnesCount64":    bits.OnesCount64,
 }
 
 // concretise turns a symbolic scalar or string into a concrete value that is
